@@ -329,9 +329,20 @@ func main() {
 		case "good2": // sets id and id+1 together: the next load may be a strict subset of this one
 			return map[string][]byte{fmt.Sprintf("s%d-cert.pem", st.id): goodSets[st.id].pemC, fmt.Sprintf("s%d-key.pem", st.id): keyPEM,
 				fmt.Sprintf("s%d-cert.pem", st.id+1): goodSets[st.id+1].pemC, fmt.Sprintf("s%d-key.pem", st.id+1): keyPEM}
-		default: // bad: a good pair plus an unusable one -> loadCertificates fails as a whole
-			return map[string][]byte{"s0-cert.pem": goodSets[0].pemC, "s0-key.pem": keyPEM,
-				fmt.Sprintf("zz%d-cert.pem", st.id): []byte("-----BEGIN CERTIFICATE-----\nAAAA\n-----END CERTIFICATE-----\n"), fmt.Sprintf("zz%d-key.pem", st.id): keyPEM}
+		default: // bad: a good pair plus unusable material -> loadCertificates fails as a whole
+			m := map[string][]byte{"s0-cert.pem": goodSets[0].pemC, "s0-key.pem": keyPEM}
+			switch st.id % 4 {
+			case 0: // certificate that does not parse
+				m["zz0-cert.pem"] = []byte("-----BEGIN CERTIFICATE-----\nAAAA\n-----END CERTIFICATE-----\n")
+				m["zz0-key.pem"] = keyPEM
+			case 1: // key without its certificate (the cert half of a split pair is gone, e.g. mid-rotation)
+				m["zz1-key.pem"] = keyPEM
+			case 2: // certificate without its key
+				m["zz2-cert.pem"] = goodSets[1].pemC
+			case 3: // combined .pem file that holds a certificate but no key
+				m["zz3.pem"] = goodSets[2].pemC
+			}
+			return m
 		}
 	}
 	type wres struct {
@@ -355,7 +366,7 @@ func main() {
 			case k < 6:
 				script[i] = step{"good", r.Intn(3)}
 			default:
-				script[i] = step{"bad", r.Intn(2)}
+				script[i] = step{"bad", r.Intn(4)}
 			}
 			if i > 0 && r.Intn(3) == 0 {
 				script[i] = script[i-1] // same blocks again
@@ -369,6 +380,8 @@ func main() {
 			{{"bad", 1}, {"bad", 0}, {"good", 2}},
 			{{"good2", 0}, {"good", 0}, {"good", 1}},
 			{{"good2", 1}, {"good", 2}, {"good2", 1}, {"good", 1}},
+			{{"good", 1}, {"bad", 1}, {"good", 1}},
+			{{"good2", 0}, {"bad", 2}, {"bad", 3}, {"good", 0}},
 		}
 		if si < len(directed) {
 			once, script = false, directed[si]
@@ -487,7 +500,7 @@ func main() {
 			case "good2":
 				items[i] = fmt.Sprintf("(Blocks %d (Some %d))", 30+st.id, 10+st.id)
 			default:
-				items[i] = fmt.Sprintf("(Blocks %d None)", 20+st.id)
+				items[i] = fmt.Sprintf("(Blocks %d None)", 20+st.id%4)
 			}
 			human = append(human, fmt.Sprintf("%s%d", st.kind, st.id))
 		}
